@@ -18,9 +18,13 @@ def cases(tier, seed, shard, nshards, rng):
     for i in range(max(5, n)):
         kind = ["tee", "lru", "cached_property", "exitstack", "scoped", "groupby"][i % 6]
         if kind == "tee":
-            yield {"kind": "tee", "len": rng.randint(0, 4), "n": rng.choice([2, 3]), "susp": rng.choice([1, 2]),
+            order_len = rng.randint(1, 8)
+            yield {"kind": "tee", "len": rng.randint(0, 4), "n": rng.choice([1, 2, 2, 3]), "susp": rng.choice([1, 2]),
+                   # from this step on ONE child is left: its siblings are closed first, so a cancellation that hits it
+                   # hits the last live child - the one that has to release the source
+                   "solo_from": rng.randrange(order_len) if rng.random() < 0.4 else None,
                    "flav": rng.choice(["async_class", "async_gen", "async_class_bare", "async_class_proxy", "async_class_future"]),
-                   "order": [rng.randrange(3) for _ in range(rng.randint(1, 8))]}
+                   "order": [rng.randrange(3) for _ in range(order_len)]}
         elif kind == "groupby":
             yield {"kind": "groupby", "keys": [rng.randrange(3) for _ in range(rng.randint(0, 6))],
                    "ops": [rng.choice(["adv", "adv", "grp"]) for _ in range(rng.randint(1, 7))],
@@ -65,12 +69,23 @@ def run_tee(case, stats):
         exc = Cancel() if cancel_at is not None else None
         out = {}
         advanced = set()
+        unstarted = set()  # children closed before their first advance (the recorded finding's mechanism)
 
         async def main():
             handle = A.tee(src, case["n"], lock=lock)
             try:
-                for c in case["order"]:
+                solo = None
+                for step, c in enumerate(case["order"]):
                     c %= case["n"]
+                    if case.get("solo_from") is not None and step == case["solo_from"]:
+                        solo = c
+                        for other in range(case["n"]):
+                            if other != solo:
+                                if other not in advanced:
+                                    unstarted.add(other)
+                                await handle[other].aclose()
+                    if solo is not None:
+                        c = solo
                     advanced.add(c)
                     try:
                         await handle[c].__anext__()
@@ -96,6 +111,7 @@ def run_tee(case, stats):
                 await handle.aclose()
 
         drive(main(), cancel_at=cancel_at, cancel_exc=exc)
+        out["unstarted"] = unstarted
         return st, lock, out, advanced, CTX.suspensions, list(CTX.foreign)
 
     st, lock, out, adv, nsus, _ = execute(None)
@@ -115,7 +131,7 @@ def run_tee(case, stats):
         if lock.owner is not None:
             viols.append({"key": "tee/lock-held-after-cancel", "msg": f"{head}: lock owned by {lock.owner}"})
         if case["flav"] != "async_class_bare" and not st.released():
-            key = "tee/unstarted-child-never-deregisters" if len(advanced) < case["n"] else "tee/leak-after-cancel"
+            key = "tee/unstarted-child-never-deregisters" if len(advanced) < case["n"] or out["unstarted"] else "tee/leak-after-cancel"
             viols.append({"key": key, "msg": f"{head}: source still open after cancellation and handle.aclose() "
                                              f"(children advanced: {sorted(advanced)})"})
     return {"violations": viols, "evals": max(1, evals), "sigs": sigs}
